@@ -53,7 +53,8 @@ def build(rng, i, transport="u", framing=None, size=None, style=None, tiny=False
     size = size if size is not None else rng.choice(BODY_SIZES)
     tag = "b%d" % i
     body = body_bytes(tag, size)
-    r = AReq(method=rng.choice(["POST", "PUT", "PATCH"]), target="/" + tag, version="1.1", headers=[("Host", "h")], framing=fr,
+    r = AReq(method=rng.choice(["POST", "PUT", "PATCH", "POST", "PUT", "CONNECT", "OPTIONS", "DELETE", "BREW"]), target="/" + tag,
+             version="1.1", headers=[("Host", "h")], framing=fr,
              body=body, chunks=random_chunks(rng, size) if fr != "cl" else None, chunk_style=style if style is not None else rng.below(4))
     r.te_first = rng.chance(1, 2)
     r.te_value = rng.choice(["chunked", "chunked", "Chunked", "CHUNKED", "chunKed"])
@@ -70,6 +71,13 @@ def build(rng, i, transport="u", framing=None, size=None, style=None, tiny=False
     wu = [hx(r.target)]
     ws = [st]
     wrb = [rb]
+    if hv == 2:
+        # an expectation the library does not support: 417 and the connection is closed, whatever the framing of the body;
+        # nothing of the body or behind it may be taken for a request
+        r.expect = rng.choice(["bogus", "100-continue, other", "200-ok"])
+        stream = r.render()
+        acts, wu = [], []
+        ws, wrb = ["417"], ["~"]
     if hv == 1:
         # the body-bearing request is one the library refuses itself (HTTP/2.0 or 3.0 -> 505): its body is skipped all the same
         r.version = rng.choice(["2.0", "3.0"])
@@ -78,6 +86,10 @@ def build(rng, i, transport="u", framing=None, size=None, style=None, tiny=False
         ws, wrb = ["505"], ["~"]
     nf = 1 + rng.below(2)
     for k in range(nf):
+        if hv == 2:
+            # (sent, but the connection has been closed by the 417)
+            stream += AReq(method="GET", target="/f%d.%d" % (i, k), version="1.1", headers=[("Host", "h")]).render()
+            continue
         t = "f%d.%d" % (i, k)
         f = AReq(method="GET", target="/" + t, version="1.1", headers=[("Host", "h")])
         if k == 0 and rng.chance(1, 3):
@@ -94,7 +106,7 @@ def build(rng, i, transport="u", framing=None, size=None, style=None, tiny=False
     extra = "wu=%s ws=%s wrb=%s we=closed fr=%s" % (j(wu), j(ws), j(wrb), fr)
     if not acts:
         acts = [action_str([], respond_str(200, b"never", True))]
-    return cv_line(stream, acts, transport=transport, extra=extra), {"framing": fr, "size": size, "consumption": ckind, "variant": ["v10ka", "v505"][hv] if hv < 2 else "plain",
+    return cv_line(stream, acts, transport=transport, extra=extra), {"framing": fr, "size": size, "consumption": ckind, "variant": ["v10ka", "v505", "v417"][hv] if hv < 3 else "plain",
                                                                       "finish": fin[0], "followers": nf}
 
 
